@@ -192,6 +192,67 @@ def _permute_ps(I, fr, callee, args, dest, argops, line):
     return vec([a[m & 3], a[(m >> 2) & 3], a[(m >> 4) & 3], a[(m >> 6) & 3]], 4)
 
 
+@x86('_mm_shuffle_epi32')
+def _shuffle_epi32(I, fr, callee, args, dest, argops, line):
+    m = cg(callee)
+    a = lanes(I, args[0], 4, 4)
+    return vec([a[m & 3], a[(m >> 2) & 3], a[(m >> 4) & 3], a[(m >> 6) & 3]], 4)
+
+
+@x86('_mm_castps_pd', '_mm_castpd_ps', '_mm_castpd_si128', '_mm_castsi128_pd')
+def _cast_pd(I, fr, callee, args, dest, argops, line):
+    # bit-preserving; registers are modelled as 4 x 32-bit lanes whatever the nominal element type
+    return vec(lanes(I, args[0], 4, 4), 4)
+
+
+@x86('_mm_unpacklo_pd', '_mm_unpacklo_epi64')
+def _unpacklo_pd(I, fr, callee, args, dest, argops, line):
+    a, b = lanes(I, args[0], 4, 4), lanes(I, args[1], 4, 4)
+    return vec([a[0], a[1], b[0], b[1]], 4)
+
+
+@x86('_mm_unpackhi_pd', '_mm_unpackhi_epi64')
+def _unpackhi_pd(I, fr, callee, args, dest, argops, line):
+    a, b = lanes(I, args[0], 4, 4), lanes(I, args[1], 4, 4)
+    return vec([a[2], a[3], b[2], b[3]], 4)
+
+
+@x86('_mm_unpacklo_epi32')
+def _unpacklo_epi32(I, fr, callee, args, dest, argops, line):
+    a, b = lanes(I, args[0], 4, 4), lanes(I, args[1], 4, 4)
+    return vec([a[0], b[0], a[1], b[1]], 4)
+
+
+@x86('_mm_unpackhi_epi32')
+def _unpackhi_epi32(I, fr, callee, args, dest, argops, line):
+    a, b = lanes(I, args[0], 4, 4), lanes(I, args[1], 4, 4)
+    return vec([a[2], b[2], a[3], b[3]], 4)
+
+
+@x86('_mm_sqrt_ss')
+def _sqrt_ss(I, fr, callee, args, dest, argops, line):
+    a = lanes(I, args[0], 4, 4)
+    return vec([mk('sqrt', a[0]), a[1], a[2], a[3]], 4)
+
+
+@x86('_mm_min_ss', '_mm_max_ss')
+def _minmax_ss(I, fr, callee, args, dest, argops, line):
+    a, b = lanes(I, args[0], 4, 4), lanes(I, args[1], 4, 4)
+    f = sse_min if callee['d'].rsplit('::', 1)[1] == '_mm_min_ss' else sse_max
+    return vec([f(a[0], b[0]), a[1], a[2], a[3]], 4)
+
+
+@x86('_mm_slli_epi32', '_mm_srli_epi32')
+def _shift_epi32(I, fr, callee, args, dest, argops, line):
+    k = cg(callee)
+    op = 'shl' if callee['d'].rsplit('::', 1)[1] == '_mm_slli_epi32' else 'shr'
+    a = lanes(I, args[0], 4, 4)
+    if k > 31:
+        z = const(0, 4)
+        return vec([z, z, z, z], 4)
+    return vec([tm.iop(op, 'u32', x, const(k, 4)) for x in a], 4)
+
+
 @x86('_mm_movehdup_ps')
 def _movehdup(I, fr, callee, args, dest, argops, line):
     a = lanes(I, args[0], 4, 4)
